@@ -1,5 +1,13 @@
 (* Property C11 — the S-expression reader returns the text's parenthesis structure, all of it.
-   Statements only; proofs live in Proofs/C11_*.v. *)
+   Statements only; proofs live in Proofs/C11_*.v.
+
+   Full statement = C11_sound + "parse m s = Ok t -> tokenize m s = flatten t".  The second half is
+   FALSE of the code (finding D02: no end-of-input check), so it is given as
+     - C11_complete_strict   : it holds of the strict reader (the spec),
+     - C11_agree_unless_trailing : the code's reader equals the strict one except on inputs that leave
+                                tokens unread (exactly the class of the recorded finding),
+     - C11_complete_partial  : what the code's reader does guarantee (prefix),
+     - C11_complete_refuted  : the witness replayed on the implementation as the finding. *)
 From Coq Require Import List Ascii String.
 From Verif Require Import Base.Result Base.Str Base.Sexp Model.Tokenizer Spec.Layout Proofs.C11_Main
   Proofs.C11_Reader.
@@ -14,14 +22,26 @@ Theorem C11_sound : forall (m : mode) (t : sexp) (seps : list text) (trailer : t
   parse m (render (combine seps (map s2t (flatten t))) trailer) = Ok (lower_sexp t).
 Proof. exact C11_sound_lemma. Qed.
 
-(* Whatever is returned is the whole token stream. *)
-Theorem C11_complete : forall (m : mode) (s : text) (t : sexp),
-  parse m s = Ok t -> tokenize m s = flatten t /\ wf t = true.
-Proof. exact C11_complete_lemma. Qed.
+Theorem C11_complete_strict : forall (m : mode) (s : text) (t : sexp),
+  parse_strict m s = Ok t <-> (tokenize m s = flatten t /\ wf t = true).
+Proof. exact C11_complete_strict_lemma. Qed.
 
-(* Unbalanced text, and text continuing after the top-level form, is an error (never out-of-fuel). *)
+Theorem C11_agree_unless_trailing : forall (m : mode) (s : text),
+  parse m s = parse_strict m s \/
+  (exists t, parse m s = Ok t /\ unread_tokens (tokenize m s) <> [] /\ parse_strict m s = Err ESyntax).
+Proof. exact C11_agree_unless_trailing_lemma. Qed.
+
+Theorem C11_complete_partial : forall (m : mode) (s : text) (t : sexp),
+  parse m s = Ok t -> tokenize m s = flatten t ++ unread_tokens (tokenize m s) /\ wf t = true.
+Proof. exact C11_complete_partial_lemma. Qed.
+
+Theorem C11_complete_refuted :
+  exists s t, parse MStr (s2t s) = Ok t /\ tokenize MStr (s2t s) <> flatten t.
+Proof. exact C11_complete_refuted_lemma. Qed.
+
+(* Text that does not start with a complete form (unclosed "(", stray ")", no token) is an error. *)
 Theorem C11_reject : forall (m : mode) (s : text),
-  (forall t, wf t = true -> tokenize m s <> flatten t) ->
+  (forall t rest, wf t = true -> tokenize m s <> flatten t ++ rest) ->
   exists k, parse m s = Err k /\ k <> EFuel.
 Proof. exact C11_reject_lemma. Qed.
 
@@ -29,6 +49,9 @@ Theorem C11_no_fuel : forall ts, parse_tokens ts <> Err EFuel.
 Proof. exact parse_tokens_no_fuel. Qed.
 
 Print Assumptions C11_sound.
-Print Assumptions C11_complete.
+Print Assumptions C11_complete_strict.
+Print Assumptions C11_agree_unless_trailing.
+Print Assumptions C11_complete_partial.
+Print Assumptions C11_complete_refuted.
 Print Assumptions C11_reject.
 Print Assumptions C11_no_fuel.
